@@ -47,13 +47,6 @@ Definition print_register (n : Z) : list Z := 82 :: dec n.
 
 Definition lower (c : Z) : Z := if (65 <=? c) && (c <=? 90) then c + 32 else c.
 
-Fixpoint text_eqb (a b : list Z) : bool :=
-  match a, b with
-  | [], [] => true
-  | x :: a', y :: b' => (x =? y) && text_eqb a' b'
-  | _, _ => false
-  end.
-
 (* NAMED_REGISTERS: rt, fp, sp, pc_ret, fp_alt *)
 Definition named_registers : list (list Z * Z) :=
   [([114; 116], 11); ([102; 112], 14); ([115; 112], 15); ([112; 99; 95; 114; 101; 116], 13);
